@@ -6,7 +6,9 @@ import "net"
 
 // VerifAmpSealRaw seals arbitrary plaintext with the generator's token protector (C14: lets the driver
 // present well-sealed but malformed / hand-made ASN.1 payloads to DecodeToken).
-func (g *TokenGenerator) VerifAmpSealRaw(data []byte) ([]byte, error) { return g.tokenProtector.NewToken(data) }
+func (g *TokenGenerator) VerifAmpSealRaw(data []byte) ([]byte, error) {
+	return g.tokenProtector.NewToken(data)
+}
 
 // VerifAmpEncodedAddr exposes the unexported encodedRemoteAddr of a decoded token (read only).
 func (t *Token) VerifAmpEncodedAddr() []byte { return t.encodedRemoteAddr }
